@@ -4,10 +4,11 @@ import Driver.OpsCPD
 import Driver.OpsGraph
 import Driver.OpsHistory
 import Driver.OpsLearn
+import Driver.OpsScore
 open Lean PgmVerif PgmVerif.Drv
 
 def handlers : List (String → Json → Option (Except String Json)) :=
-  [handleFactor, handleCPD, handleGraph, handleHistory, handleLearn]
+  [handleFactor, handleCPD, handleGraph, handleHistory, handleLearn, handleScore]
 
 def handle (op : String) (j : Json) : Except String Json :=
   match handlers.findSome? (fun h => h op j) with
